@@ -4,6 +4,7 @@ import (
 	"fmt"
 	"go/constant"
 	"go/token"
+	"go/types"
 	"math/big"
 	"strings"
 
@@ -420,6 +421,7 @@ func checkC04(r *core.Run) {
 	// the block's flags are those of its height also on the reorganisation / re-apply paths (shared with C06)
 	c06FlagsAfterHeight(r, p, "R-C04-scripts")
 	c04TrustPerTx(r, p, ct, "R-C04-scripts")
+	c04SpendMarked(r, p, ct)
 	c04SigopTable(r, p)
 	// the maturity test reads the coinbase flag and height of the spent record: both must survive a disconnect, so the
 	// undo record collected here has to carry every field of the spent record (rule shared with C06)
@@ -1008,4 +1010,89 @@ func c04FailCounter(fn *ssa.Function) func(*ssa.If) (bool, bool) {
 		}
 		return false, false
 	}
+}
+
+// c04SpendMarked: a confirmed output that an input spends is marked in the block's table of spent outputs
+// (DeledTxs[txid][vout] = true) on every way from the successful look-up to the next input - not only when
+// the table entry for that transaction is created.  The mark is what the double-spend test of a later input
+// of the same block reads, and what removes the output from the set when the block is committed.
+func c04SpendMarked(r *core.Run, p *core.Program, ct *ssa.Function) {
+	const rule, key = "R-C04-inputs", "confirmed-spend-marked"
+	var marks []*ssa.Store
+	an.Instrs(ct, func(i ssa.Instruction) {
+		st, ok := i.(*ssa.Store)
+		if !ok || an.Expr(st.Val) != "true" {
+			return
+		}
+		ia, ok := st.Addr.(*ssa.IndexAddr)
+		if !ok || !strings.HasSuffix(an.Expr(ia.Index), ".Vout") {
+			return
+		}
+		if sl, ok := ia.X.Type().Underlying().(*types.Slice); ok {
+			if b, ok := sl.Elem().Underlying().(*types.Basic); ok && b.Kind() == types.Bool {
+				marks = append(marks, st)
+			}
+		}
+	})
+	if len(marks) == 0 {
+		r.Fail(rule, key, p.Pos(ct.Pos()), "no statement marks a spent confirmed output in the block's table of spent outputs")
+		return
+	}
+	markBlk := map[*ssa.BasicBlock]bool{}
+	for _, m := range marks {
+		markBlk[m.Block()] = true
+	}
+	// the look-up and its "found" side
+	var found []*ssa.BasicBlock
+	for _, b := range ct.Blocks {
+		iff, ok := b.Instrs[len(b.Instrs)-1].(*ssa.If)
+		if !ok {
+			continue
+		}
+		x, y, rel, ok := an.CondCmp(iff.Cond)
+		if !ok {
+			continue
+		}
+		c, isC := y.(*ssa.Const)
+		call, isCall := x.(*ssa.Call)
+		if !isC || c.Value != nil || !isCall || an.CallName(call) != "(*lib/utxo.UnspentDB).UnspentGet" {
+			continue
+		}
+		switch rel {
+		case token.EQL:
+			found = append(found, b.Succs[1])
+		case token.NEQ:
+			found = append(found, b.Succs[0])
+		}
+	}
+	if len(found) != 1 {
+		r.Fail(rule, key, p.Pos(ct.Pos()), fmt.Sprintf("%d tests of the unspent-set look-up found (one expected)", len(found)))
+		return
+	}
+	// from the found side, the way on to the next input (the head of the loop over the inputs, i.e. the
+	// innermost loop around the look-up) must pass a mark; error returns may leave without
+	var head *ssa.BasicBlock
+	n := 1 << 30
+	for _, h := range ct.Blocks {
+		if body := an.LoopBody(h); body != nil && body[found[0]] && len(body) < n {
+			head, n = h, len(body)
+		}
+	}
+	bad := ""
+	seen := map[*ssa.BasicBlock]bool{}
+	work := []*ssa.BasicBlock{found[0]}
+	for len(work) > 0 && bad == "" {
+		b := work[len(work)-1]
+		work = work[:len(work)-1]
+		if seen[b] || markBlk[b] {
+			continue
+		}
+		seen[b] = true
+		if b == head {
+			bad = "a confirmed output can be spent by an input without being marked as spent in the block's table (the next input is reached around the mark at " + p.Pos(marks[0].Pos()) + "): a later input of the block can spend it again"
+			break
+		}
+		work = append(work, b.Succs...)
+	}
+	r.Check(bad == "" && head != nil, rule, key, p.Pos(marks[0].Pos()), "every confirmed spend is marked before the next input", bad)
 }
